@@ -158,6 +158,31 @@ impl SubprogramContext {
             .map_or(Ok(()), |v| Err(LintError::DuplicateDefinition.at(v)))
     }
 
+    /// Ensures that no name of this collection (the SUBs) is also a name of the other one
+    /// (the FUNCTIONs): one name cannot be both. The error is reported at whichever of the
+    /// two comes later in the source, and for the first such name in source order.
+    pub fn ensure_does_not_clash_with(&self, other: &Self) -> Result<(), LintErrorPos> {
+        fn key(signature: &Positioned<Signature>) -> (u32, u32) {
+            (signature.pos.row(), signature.pos.col())
+        }
+        self.declarations
+            .iter()
+            .chain(self.implementations.iter())
+            .filter_map(|(name, mine)| {
+                other
+                    .declarations
+                    .iter()
+                    .chain(other.implementations.iter())
+                    .filter(|(other_name, _)| *other_name == name)
+                    .map(|(_, theirs)| if key(theirs) > key(mine) { theirs } else { mine })
+                    .min_by_key(|signature| key(signature))
+            })
+            .min_by_key(|signature| key(signature))
+            .map_or(Ok(()), |signature| {
+                Err(LintError::DuplicateDefinition.at(signature))
+            })
+    }
+
     pub fn implementations(self) -> SignatureMap {
         self.implementations.0
     }
